@@ -231,11 +231,33 @@ class Bomb:
         return max((len(m.group(0)) for m in re.finditer(b"c+", b)), default=0)
 
 
+class Chain:
+    """a hex string that the compiler splits into a chain of pieces (at `[-]` or a jump of >= 200 bytes): it occupies one string
+    index per piece; conditions refer to the first (head) index"""
+
+    def __init__(self, pieces, gaps):
+        assert len(gaps) == len(pieces) - 1
+        self.pieces, self.gaps = pieces, gaps
+
+    def src(self):
+        out = [" ".join("%02x" % x for x in self.pieces[0])]
+        for g, p in zip(self.gaps, self.pieces[1:]):
+            out.append("[-]" if g[1] is None else "[%d-%d]" % g)
+            out.append(" ".join("%02x" % x for x in p))
+        return "{ %s }" % " ".join(out)
+
+
+def nidx(s):
+    return len(s.pieces) if isinstance(s, Chain) else 1
+
+
 def str_findall(s, b):
     return find_literal(s, b) if isinstance(s, (bytes, bytearray)) else s.findall(b)
 
 
 def str_src(s):
+    if isinstance(s, Chain):
+        return s.src()
     if isinstance(s, (bytes, bytearray)):
         return "{ %s }" % " ".join("%02x" % x for x in s)
     return "/%s/" % s.src
@@ -252,8 +274,11 @@ class RuleSet:
         self.nsnames = nsnames or ["default"] + ["n%d" % i for i in range(1, 1 + max(r["ns"] for r in rules))]
         k = 0
         for r in rules:
-            r["sidx"] = list(range(k, k + len(r["strings"])))
-            k += len(r["strings"])
+            r["sidx"], r["sidx_all"] = [], []
+            for st in r["strings"]:
+                r["sidx"].append(k)                       # index of the declared string (= of its head piece)
+                r["sidx_all"] += list(range(k, k + nidx(st)))
+                k += nidx(st)
         self.nstrings = k
         self.noreq = None     # filled from the compiled rules (harness --describe)
         self.fixed = []       # per string: offset if the compiler marked it STRING_FLAGS_FIXED_OFFSET (only used as "$s at N")
@@ -261,7 +286,21 @@ class RuleSet:
         assert [r["ns"] for r in rules] == sorted(r["ns"] for r in rules)
 
     def all_strings(self):
-        return [s for r in self.rules for s in r["strings"]]
+        """one entry per string INDEX: the pieces of a chained string are strings of their own"""
+        out = []
+        for r in self.rules:
+            for s in r["strings"]:
+                out += list(s.pieces) if isinstance(s, Chain) else [s]
+        return out
+
+    def expected_chain_idx(self):
+        out, k = [], 0
+        for r in self.rules:
+            for s in r["strings"]:
+                if isinstance(s, Chain):
+                    out += list(range(k, k + nidx(s)))
+                k += nidx(s)
+        return out
 
     def conds(self, kind):
         out = []
@@ -338,10 +377,11 @@ class RuleSet:
         rs = []
         for i, r in enumerate(self.rules):
             fl = r["flags"] + ("n" if self.noreq[i] else "")
-            rs.append("%d,%s,%s,%s" % (r["ns"], fl or "-", "+".join(map(str, r["sidx"])) or "-", "~".join(self.cond_rpn(r["cond"]))))
+            rs.append("%d,%s,%s,%s" % (r["ns"], fl or "-", "+".join(map(str, r["sidx_all"])) or "-", "~".join(self.cond_rpn(r["cond"]))))
         mi = "+".join(str(MODS[m]) for m in self.imports) or "-"
         ms = "+".join(str(i) for i, x in enumerate(getattr(self, "single", [])) if x) or "-"
-        return "mr=%s mi=%s ms=%s" % (";".join(rs), mi, ms)
+        mc = ",".join("%d:%d:%d:%d:%d" % c for c in getattr(self, "chains", [])) or "-"
+        return "mr=%s mi=%s ms=%s mc=%s" % (";".join(rs), mi, ms, mc)
 
 
 class HarnessCrash(Exception):
@@ -381,6 +421,10 @@ def describe(harness_bin, rulesets, core):
         rs.noreq = [c == "1" for c in f["noreq"]]
         rs.fixed = [None if x == "-" else int(x) for x in f["fixed"].split(",")] if f.get("fixed") else []
         rs.single = [c == "1" for c in f.get("single", "")]
+        rs.chains = [tuple(int(x) for x in t.split(":")) for t in f.get("chain", "-").split(",") if t != "-"]
+        if sorted(c[0] for c in rs.chains) != rs.expected_chain_idx():
+            raise HarnessCrash("the compiler split the strings into chains differently than expected: " + l, cmd, rc, err,
+                               "crash rs=%s in=-~0 fl=0 to=0 ops=S/0/-/-/-/0 ep=0" % rs.source().encode().hex(), rs.source())
 
 
 # ------------------------------------------------------------------------------------------------ inputs and facts
@@ -425,6 +469,10 @@ class Input:
         """True if scanning this partition must give what scanning the same bytes as ONE block gives: contiguous, everything
         available, no string occurrence / integer read cut by a block boundary, same executable header facts"""
         if not self.contiguous or not all(self.avail):
+            return False
+        if rs.expected_chain_idx() and len(self.parts) > 1:
+            # the pieces of a chained string are combined by their offsets inside the blocks (code behaviour, Thm/C13
+            # chained_pieces_combine_by_in_block_offsets): a partition is not comparable with the whole buffer
             return False
         whole = Input(self.data)
         if self.occurrences(rs) != whole.occurrences(rs):
